@@ -95,9 +95,15 @@ def work(tasks, idx):
             c = cs[ci]
             a, e, _ = faults.build_assertion(c, flags=core.UP | core.UV)
             if trailer:
-                # a response that is not canonical but that a lenient verifier might accept: the signature followed by
-                # padding bytes. If it is accepted at all, its bits are signed material like any other
-                a = dict(a, signature=a["signature"] + trailer)
+                # a response that is not canonical but that a lenient verifier might accept: the signature followed or preceded
+                # by padding bytes, the client data surrounded by whitespace that was not signed. If such a response is accepted
+                # at all, its bits are signed material like any other
+                if isinstance(trailer, tuple) and trailer[0] == "sig-prefix":
+                    a = dict(a, signature=trailer[1] + a["signature"])
+                elif isinstance(trailer, tuple) and trailer[0] == "cdj-ws":
+                    a = dict(a, client_data_json=trailer[1] + a["client_data_json"] + trailer[2])
+                else:
+                    a = dict(a, signature=a["signature"] + trailer)
             base = cases.run_auth(a, e)
             if base["k"] != "accept":
                 if trailer:
@@ -198,6 +204,12 @@ def run(ctx, res):
         for trailer in (b"\x00", b"\x00\x00\x00", b"\xff\xfe"):
             for lo in range(0, 640, CHUNK):
                 tasks.append(("auth", ci, "signature", lo, lo + CHUNK, trailer))
+        for prefix in (b"\x00", b"\x00\x00"):
+            for lo in range(0, 256, CHUNK):
+                tasks.append(("auth", ci, "signature", lo, lo + CHUNK, ("sig-prefix", prefix)))
+        for lead, trail in ((b"", b"\n"), (b" ", b""), (b"\t", b"\r\n"), (b"\x0b", b"\x0c")):
+            for lo in range(0, 150 * 8, CHUNK):
+                tasks.append(("auth", ci, "client_data_json", lo, lo + CHUNK, ("cdj-ws", lead, trail)))
     fmts = ["packed", "fido-u2f", "tpm"] if ctx.quick() else list(SIGNED_FIELDS)
     for fmt in fmts:
         choices = _reg.cred_choices(fmt)
